@@ -80,7 +80,8 @@ WhyProp(why) == IF why = "armor" THEN "C03" ELSE IF why = "unsupported" THEN "C0
 \* a message of a protocol-legal length was rejected: C14 (decode what is present), C04 (the values are
 \* not reported), and for the binary types C15 (every payload length up to the protocol maximum)
 Rejected(px) ==
-    {<<"C14", "decodable payload rejected">>, <<"C04", "decodable payload rejected">>}
+    {<<"C14", "decodable payload rejected">>, <<"C04", "decodable payload rejected">>,
+     <<"C09", "a message of a supported type and legal length is not decoded as the kind its type selects">>}
     \cup (IF px.dm.t \in {6, 8, 17} THEN {<<"C15", "binary message of a legal length rejected">>} ELSE {})
 
 \* a message was produced where only an error is acceptable: if it is not even of the kind the six
@@ -108,7 +109,11 @@ JudgeLine(e, st) ==
               ELSE [must |-> "ok", dm |-> ErrorDecode, why |-> ""]
         \* ---- class level
         classViol ==
-            IF e.r = "panic" THEN V("C01", "panic: " \o e.pmsg)
+            IF e.r = "panic"
+            THEN V("C01", "panic: " \o e.pmsg)
+                 \* where an error value is the required answer, a panic also breaks the rule that requires it
+                 \cup (IF needDecode /\ px.must = "err"
+                       THEN V(WhyProp(px.why), "panic where an error must be returned (" \o px.why \o ")") ELSE {})
             ELSE IF o.class = "reject_form"
             THEN IF obsAcc
                  THEN V("C08", "ill-formed line accepted (" \o ln.why \o ")")
@@ -138,8 +143,12 @@ JudgeLine(e, st) ==
             IF e.r = "err_nmea"
             THEN IF needDecode
                  THEN IF px.must = "ok" THEN Rejected(px) ELSE {}
-                 ELSE IF o.class = "single" THEN V("C08", "well-formed sentence rejected")
-                      ELSE V("C05", "in-sequence fragment rejected (" \o o.class \o ")")
+                 ELSE (IF o.class = "single" THEN V("C08", "well-formed sentence rejected")
+                       ELSE V("C05", "in-sequence fragment rejected (" \o o.class \o ")"))
+                      \* ... and if its payload is not armored data and decoding was not requested, an error that
+                      \* only the payload can explain was raised with decoding off
+                      \cup (IF e.dec = 0 /\ ~Unarmor(ln.payload, 0).ok
+                            THEN V("C07", "payload-level error raised although decoding was not requested") ELSE {})
             ELSE IF e.r # r0 THEN V("C05", "expected " \o r0 \o " got " \o e.r)
             ELSE IF needDecode /\ px.must = "err"
             THEN V(WhyProp(px.why), "payload that must be rejected was decoded (" \o px.why \o ")")
@@ -152,7 +161,7 @@ JudgeLine(e, st) ==
         mtIdealCat == IF o.class = "deliver" THEN SentenceTypeIdeal(o.data) ELSE mtIdeal
         mtOk == mtIdeal = -1 \/ s.mtype = mtIdeal \/ s.mtype = mtIdealCat
         mtDev == ~mtOk /\ "sentence_type_on_armored" \in Known /\ s.mtype = SentenceTypeAsBuilt(own)
-        fieldViol ==
+        syntViol ==
             (IF s.talker = ln.talker THEN {} ELSE V("C07", "talker"))
             \cup (IF s.report = ln.report THEN {} ELSE V("C07", "report type"))
             \cup (IF s.n = ln.n THEN {} ELSE V("C07", "fragment count"))
@@ -160,6 +169,16 @@ JudgeLine(e, st) ==
             \cup (IF s.id = (IF ln.id = -1 THEN << >> ELSE <<ln.id>>) THEN {} ELSE V("C07", "sequence id"))
             \cup (IF s.chan = (IF ln.chan = -1 THEN << >> ELSE <<ln.chan>>) THEN {} ELSE V("C07", "channel"))
             \cup (IF s.fill = ln.fill THEN {} ELSE V("C07", "fill bits"))
+        \* a sentence numbered outside 1 <= k <= n: whether it is treated as unfragmented or as a member of a
+        \* group is not specified, but if it is accepted it still reports what was transmitted, and its payload is
+        \* its own, or the open group's followed by its own - never anything else
+        numViol ==
+            IF ln.starInField \/ ~obsAcc THEN {}
+            ELSE syntViol
+                 \cup (IF s.data = ln.payload \/ (e.r = "complete" /\ s.data = st.data \o ln.payload) THEN {}
+                       ELSE V("C07", "payload of an accepted sentence is neither its own nor its group's"))
+        fieldViol ==
+            syntViol
             \cup (IF s.more = (IF HasMore(ln) THEN 1 ELSE 0) /\ s.frag = (IF IsFragment(ln) THEN 1 ELSE 0)
                   THEN {} ELSE V("C07", "has_more / is_fragment"))
             \cup (IF s.data = o.data THEN {}
@@ -172,6 +191,14 @@ JudgeLine(e, st) ==
             \cup (IF e.r = "incomplete" \/ e.dec = 0
                   THEN IF s.msg = << >> THEN {} ELSE V("C07", "message present without decoding / on a fragment")
                   ELSE MsgJudge(px, s.msg))
+            \* a decoded message that is wrong for the transmitted fill count but right for another one: the
+            \* payload was unarmored with a fill count that this sentence did not carry
+            \cup (IF e.r = "complete" /\ e.dec = 1 /\ s.msg # << >> /\ px.must # "err" /\ MsgJudge(px, s.msg) # {}
+                     /\ \E f \in (0..5) \ {ln.fill} :
+                            LET pf == PayloadExpect(o.data, f)
+                            IN  pf.must # "err" /\ MsgViolOf(pf.dm, s.msg[1], Known) = {}
+                  THEN V("C03", "message decoded from the payload unarmored with a fill count that was not transmitted")
+                  ELSE {})
             \cup (IF Has(e, "opt") /\ e.opt = (IF e.r = "complete" THEN 1 ELSE 0)
                      /\ e.res = e.opt /\ e.convsame = 1 THEN {} ELSE V("C05", "Option/Result conversion"))
         fieldDevs ==
@@ -189,7 +216,7 @@ JudgeLine(e, st) ==
         mtAlways == IF obsAcc /\ ln.ok /\ ~checked /\ ~(mtOk \/ mtDev) THEN V("C19", "sentence message type") ELSE {}
     IN  IF unspec
         THEN \* never judged (DESIGN 5.3, 5.4) except for totality; the code's own reading is the reference
-             [viol |-> (IF e.r = "panic" THEN V("C01", "panic: " \o e.pmsg) ELSE {}) \cup agreeViol,
+             [viol |-> (IF e.r = "panic" THEN V("C01", "panic: " \o e.pmsg) ELSE {}) \cup agreeViol \cup numViol,
               devs |-> {}, st |-> o.st,
               lost |-> ~((obsAcc /\ e.r = r0) \/ (~obsAcc /\ (r0 \in {"err_nmea", "err_checksum"} \/ needDecode))),
               class |-> o.class, unspec |-> TRUE]
@@ -236,6 +263,10 @@ TwinViol(e) ==
     ELSE IF e.twinmode = "msgonly"
          THEN IF e.r = e.twin.r /\ MsgOfEv(e) = MsgOfEv(e.twin) THEN {}
               ELSE V(e.twinprop, "result / decoded message differs from its twin (" \o e.twinwhy \o ")")
+    ELSE IF e.twinmode = "kind"
+         \* the two inputs differ only in bits that must not decide between a value and an error
+         THEN IF (e.r \in {"ok", "complete", "incomplete"}) = (e.twin.r \in {"ok", "complete", "incomplete"}) THEN {}
+              ELSE V(e.twinprop, "accepted / rejected differently from its twin (" \o e.twinwhy \o ")")
     ELSE IF e.twinmode = "msg"
          THEN IF e.r = e.twin.r /\ MsgOfEv(e) = MsgOfEv(e.twin) /\ DataOfEv(e) = DataOfEv(e.twin) THEN {}
               ELSE V(e.twinprop, "result / payload / decoded message differs from its twin (" \o e.twinwhy \o ")")
@@ -272,7 +303,10 @@ JudgeUnarmor(e) ==
 
 JudgeDecode(e) ==
     LET px == DecodeExpect(e.b)
-    IN  IF e.r = "panic" THEN V("C01", "decode panic: " \o e.pmsg)
+    IN  IF e.r = "panic"
+        THEN V("C01", "decode panic: " \o e.pmsg)
+             \cup (IF px.must = "err"
+                   THEN V(WhyProp(px.why), "panic where an error must be returned (" \o px.why \o ")") ELSE {})
         ELSE IF e.r # "ok"
         THEN IF px.must = "ok" THEN Rejected(px) ELSE {}
         ELSE IF px.must = "err" THEN V(WhyProp(px.why), "payload that must be rejected was decoded (" \o px.why \o ")")
@@ -326,12 +360,27 @@ JudgeCli(e, st) ==
                                      ELSE "one stderr record")
                     \o ", observed " \o ToString(e.out) \o " on stdout (" \o e.variant \o "), "
                     \o ToString(e.err) \o " on stderr"
+        \* what the tool printed also contradicts the property that governs this line's class, whenever the
+        \* observation leaves no doubt about which decision of the library (or of the tool around it) went wrong
+        also ==
+            (IF o.class = "reject_form" /\ e.out >= 1
+             THEN V("C08", "ill-formed line decoded by the command-line tool (" \o ln.why \o ")") ELSE {})
+            \cup (IF o.class = "reject_checksum" /\ e.out >= 1
+                  THEN V("C02", "line with a wrong checksum decoded by the command-line tool") ELSE {})
+            \cup (IF o.class \in {"reject_seq_id", "reject_seq_no"} /\ e.out >= 1
+                  THEN V("C06", "out-of-sequence fragment delivered by the command-line tool (" \o o.class \o ")") ELSE {})
+            \cup (IF o.class \in {"open", "continue"} /\ e.err >= 1
+                  THEN V("C05", "in-sequence fragment rejected by the command-line tool (" \o o.class \o ")") ELSE {})
+            \cup (IF o.class \in {"open", "continue"} /\ e.out >= 1
+                  THEN V("C05", "a message printed for a fragment that does not complete its group") ELSE {})
+            \cup (IF r0 = "complete" /\ px.must = "ok" /\ e.out = 1 /\ e.variant # px.dm.v
+                  THEN V("C09", "type " \o ToString(px.dm.t) \o " printed as " \o e.variant) ELSE {})
     IN  IF unspec
         THEN [viol |-> IF e.out + e.err > 1 THEN V("C20", "more than one record for a line") ELSE {},
               st |-> o.st,
               lost |-> ~((r0 = "incomplete" /\ okNone) \/ (r0 = "complete" /\ (okErr \/ e.out = 1)) \/ (r0 \notin {"complete", "incomplete"} /\ okErr)),
               class |-> o.class, unspec |-> TRUE]
-        ELSE [viol |-> IF good THEN {} ELSE V("C20", describe),
+        ELSE [viol |-> IF good THEN {} ELSE V("C20", describe) \cup also,
               st |-> o.st, lost |-> ~good, class |-> o.class, unspec |-> FALSE]
 
 JudgeCliEnd(e) ==
@@ -387,10 +436,20 @@ EvNew(e) ==
 EvLine(e) ==
     /\ e.op = "line"
     /\ IF e.p \in lost
-       THEN \* state unknown: only totality and twin equality are judged
-            /\ UNCHANGED <<ps, lost, caphit>>
-            /\ AddViol(l, (IF e.r = "panic" THEN V("C01", "panic: " \o e.pmsg) ELSE {}) \cup TwinViol(e))
-            /\ AddDevs({}) /\ Bump(e, "", FALSE, TRUE)
+       THEN \* state unknown.  Lines whose outcome is the same from every state (ill-formed, wrong checksum,
+            \* unfragmented, first fragment of a group) are still judged in full, and a first fragment that is
+            \* answered as expected makes the state known again; for all others only totality and twin
+            \* equality are judged
+            LET j0 == JudgeLine(e, Fresh)
+                indep == j0.class \in {"reject_form", "reject_checksum", "single", "open"} /\ ~j0.unspec
+                resync == indep /\ j0.class = "open" /\ ~j0.lost /\ j0.viol = {}
+            IN  /\ ps' = IF resync THEN [q \in (DOMAIN ps) \cup {e.p} |-> IF q = e.p THEN j0.st ELSE ps[q]] ELSE ps
+                /\ lost' = IF resync THEN lost \ {e.p} ELSE lost
+                /\ caphit' = IF resync THEN caphit \ {e.p} ELSE caphit
+                /\ AddViol(l, (IF indep THEN j0.viol
+                               ELSE IF e.r = "panic" THEN V("C01", "panic: " \o e.pmsg) ELSE {}) \cup TwinViol(e))
+                /\ AddDevs(IF indep THEN j0.devs ELSE {})
+                /\ Bump(e, IF indep THEN j0.class ELSE "", FALSE, ~indep)
        ELSE LET j == JudgeLine(e, StateOf(e.p))
             IN  /\ ps' = [q \in (DOMAIN ps) \cup {e.p} |-> IF q = e.p THEN j.st ELSE ps[q]]
                 /\ lost' = IF j.lost THEN lost \cup {e.p} ELSE lost
@@ -418,7 +477,15 @@ EvPure(e) ==
 EvCli(e) ==
     /\ e.op = "cli"
     /\ IF 0 \in lost
-       THEN /\ UNCHANGED <<ps, lost, caphit>> /\ AddViol(l, {}) /\ AddDevs({}) /\ Bump(e, "", FALSE, TRUE)
+       THEN \* as for library lines: outcomes that do not depend on the reassembly state are still judged
+            LET j0 == JudgeCli(e, Fresh)
+                indep == j0.class \in {"reject_form", "reject_checksum", "single", "open"} /\ ~j0.unspec
+                resync == indep /\ j0.class = "open" /\ ~j0.lost
+            IN  /\ ps' = IF resync THEN [q \in (DOMAIN ps) \cup {0} |-> IF q = 0 THEN j0.st ELSE ps[q]] ELSE ps
+                /\ lost' = IF resync THEN lost \ {0} ELSE lost
+                /\ UNCHANGED caphit
+                /\ AddViol(l, IF indep THEN j0.viol ELSE {}) /\ AddDevs({})
+                /\ Bump(e, IF indep THEN j0.class ELSE "", FALSE, ~indep)
        ELSE LET j == JudgeCli(e, StateOf(0))
             IN  /\ ps' = [q \in (DOMAIN ps) \cup {0} |-> IF q = 0 THEN j.st ELSE ps[q]]
                 /\ lost' = IF j.lost THEN lost \cup {0} ELSE lost
